@@ -305,6 +305,10 @@ def r5_who_may_write(ctx):
 
 
 def run(ctx):
+    # the third occurrence is reported through the game API only if the game reports the verdict computed now (not a remembered status)
+    from . import c16
+    import_rules(ctx, 'C17.R6-game-reports-current-verdict', [c16.r6_game_reports_current_verdict],
+                 'a game in which a position occurs for the third time is reported as drawn at that moment', floor=1)
     r5_who_may_write(ctx)
     r1_inverse(ctx)
     r2_key_coverage(ctx)
